@@ -33,7 +33,8 @@ ColumnSets(ndim) ==
                 \o <<[n |-> N("tform"), u |-> <<"legacy", "yr">>]>>
   IN { base \o pos \o vel \o tail, base \o pos, base \o tail, base \o vel \o ang, tail \o pos \o base,
        base \o SubSeq(pos, 1, ndim - 1) \o vel,                \* incomplete component set: stays scalar
-       legacy, base \o pos \o <<[n |-> C("v", "x"), u |-> Mono(0, 1, -1)]>> }
+       legacy, base \o pos \o <<[n |-> C("v", "x"), u |-> Mono(0, 1, -1)]>>,
+       <<[n |-> N("msink"), u |-> Mono(1, 0, 0)]>> }                 \* a single column: still one row per sink
 
 \* ---- expected group
 HasAll(cols, p, s, ndim) == \A i \in 1..ndim : \E k \in 1..Len(cols) : cols[k].n = <<p, Comps(ndim)[i], s>>
